@@ -436,6 +436,23 @@ def r05_1_route_identity(ctx, rule: str = 'R05.1') -> List[Ob]:
         else:
             obs.append(inconclusive(rule, t, f.loc(), f"{len(ccalls)} compiled calls / {len(pcalls)} profile calls",
                                     construct=f"{_fn(f)}::compiled-call"))
+        # (a') the averaging interval is the caller's on every route: `interval` decides between the single-pass kernel (whole
+        # recording) and the profile route, and is handed to avrg/integral - re-binding it (say to None when it spans the
+        # recording) makes the scalar average over something else than the profile route of the same call does
+        if 'interval' in [a.arg for a in f.node.args.args + f.node.args.kwonlyargs]:
+            t = f"{f.name}: the averaging interval reaches the route selection and avrg/integral as the caller gave it (never re-bound)"
+            rebinds = [n for n in ast.walk(f.node) if isinstance(n, (ast.Assign, ast.AugAssign, ast.AnnAssign)) and any(
+                isinstance(x, ast.Name) and x.id == 'interval' and isinstance(x.ctx, ast.Store)
+                for tg in (n.targets if isinstance(n, ast.Assign) else [n.target]) for x in ast.walk(tg))]
+            harmless = [n for n in rebinds if isinstance(n, ast.Assign) and isinstance(n.value, ast.Call) and len(n.value.args) == 1
+                        and ast.unparse(n.value.func) in ('tuple', 'list', 'np.array', 'np.asarray')
+                        and isinstance(n.value.args[0], ast.Name) and n.value.args[0].id == 'interval']
+            other = [n for n in rebinds if n not in harmless]
+            if not other:
+                obs.append(ok(rule, t, f.loc(), construct=f"{_fn(f)}::interval-as-given"))
+            else:
+                obs.append(violation(rule, t, f.loc(other[0]), key=f"{_fn(f)}::interval-rebound::{ast.unparse(other[0])[:60]}",
+                                     detail=f"`{ast.unparse(other[0])[:100]}`"))
         # (b) non-compiled routes: every return outside the try body goes through a profile route of this family
         routes = []
         for n in ast.walk(f.node):
